@@ -1,32 +1,70 @@
 #!/usr/bin/env python3
-"""Regenerates MANIFEST.json from the table below (kept valid at all times)."""
-import json, subprocess
+"""Regenerates MANIFEST.json from the table below (kept valid at all times).
+Only checks whose driver file exists in harness/checks AND that are listed in `claimed` are claimed."""
+import json, subprocess, os
 props = [json.loads(l) for l in open('/verif/properties.jsonl')]
 ids = [p['id'] for p in props]
 
-# id -> dict(level, text, note, technique, design)
+E = "exploration"
+F = "fault_enumeration"
+HELD = " Held means no divergence on the executions listed in evidence, not a proof."
+
+# id -> dict(level, text, note, technique)
 claimed = {
- "C01": dict(level="exploration",
-   text="Runtime monitoring of the real constructors/encoder/decoder on 44k (quick) / 1.6M (thorough) generated trees per run: an independent SEMI E5 reference encoder supplies the expected bytes, and the item is compared to its logical value through every public accessor before and after a decode round trip; -race/checkptr slice included. Held means no divergence on the cases listed in evidence, not a proof.",
+ "C01": dict(level=E,
+   text="Runtime monitoring of the real constructors/encoder/decoder on 44k (quick) / 1.6M (thorough) generated trees per run: an independent SEMI E5 reference encoder supplies the expected bytes, and the item is compared to its logical value through every public accessor before and after a decode round trip; -race/checkptr slice included." + HELD,
    note="Trusts harness/ref/e5 as the reading of SEMI E5; F4 NaN payloads are compared as NaN only. Known finding (list with EmptyItem child) is reported as KNOWN-FINDING.",
-   technique="differential runtime monitor: reference E5 encoder + accessor-level oracle over generated constructor recipes; race detector/checkptr slice",
-   design="DESIGN.md §5 C01"),
- "C02": dict(level="exploration",
-   text="Runtime monitoring of secs2.Decode/DecodeOwned on ~1.2M (quick) / ~20M (thorough) byte strings per run: exhaustive short inputs, systematic truncations/mutations/length-field rewrites of generated valid encodings, length-claim bombs, deep nesting, random bytes. An independent total E5 reference decoder decides accept/reject and the decoded values (compared through every accessor), re-encoding must equal the consumed prefix, the two entry points must agree, and an allocation meter bounds TotalAlloc per input. Half of the inputs run under the race build (checkptr).",
+   technique="differential runtime monitor: reference E5 encoder + accessor-level oracle over generated constructor recipes; race detector/checkptr slice"),
+ "C02": dict(level=E,
+   text="Runtime monitoring of secs2.Decode/DecodeOwned on ~1.2M (quick) / ~20M (thorough) byte strings per run: exhaustive short inputs, systematic truncations/mutations/length-field rewrites of generated valid encodings, length-claim bombs, deep nesting, random bytes. An independent total E5 reference decoder decides accept/reject and the decoded values (compared through every accessor), re-encoding must equal the consumed prefix, the two entry points must agree, and an allocation meter bounds TotalAlloc per input. Half of the inputs run under the race build (checkptr)." + HELD,
    note="Trusts harness/ref/e5 as the reading of the SEMI E5 item grammar (depth limit 64). The allocation constant (96 B per input byte + 4 KiB per call + 256 KiB slack per metered batch) is a stated assumption for 'constant multiple of the input length'.",
-   technique="differential runtime monitor: total reference E5 decoder + accessor-level oracle + allocation meter over exhaustive-short/mutated/bomb inputs; checkptr via -race build",
-   design="DESIGN.md §5 C02"),
+   technique="differential runtime monitor: total reference E5 decoder + accessor-level oracle + allocation meter over exhaustive-short/mutated/bomb inputs; checkptr via -race build"),
+ "C05": dict(level=E,
+   text="Two runtime monitors over the real code. (a) The real supervisor (verif-tagged driver, no goroutines) is executed under a controlled scheduler: DFS over all schedules of transport calls, queued-event steps and commits interposed at step's load/store seam to depth 12 (quick) / 18 (thorough) with visited-state hashing, plus 20k / 1M random walks; an online monitor checks every observed State() change against the E37 edges, its cause, staleness across generations, the notification chain and the after-Close state. (b) End-to-end: Open/Close/reconnect histories on real hsmsss connections against a scripted peer under the race detector with a StateChangeHandler chain monitor and after-Close checks (also fed by the C10 lifecycle programs)." + HELD,
+   note="The environment model of (a) (which transport calls are possible when) is stated in c05_driver.go and DESIGN.md; schedules outside it are not explored. Real-goroutine interleavings in (b) are sampled, widened by vhook delays. Three genuine defects found by (a) were repaired (fix: commits in known_findings.json).",
+   technique="controlled-scheduler execution of the real FSM with an online trace monitor (edges, causes, notification chain) + e2e history monitor under the race detector"),
+ "C06": dict(level=E,
+   text="40 (quick) / 1500 (thorough) concurrent request/reply histories per run on real connections (1..64 senders) against a scripted peer that replies now/late/permuted/twice/never, rejects, collides system bytes with primaries and control responses, sends undecodable and unsolicited messages, with random caller cancellation and link drops; call/return events and the peer's read/write logs are joined by unique tokens and scanned offline for ownership (own reply only), exactly-once delivery to handlers in arrival order, outcome class, T3 lower bound and system-bytes uniqueness. Race build." + HELD,
+   note="Unique tokens make the history unambiguous, so the scan is exact for the histories produced; interleavings are sampled (vhook delays at send.afterRegister/afterWrite, recv.beforeDispatch). The genuine (nil,nil) defect it found is repaired (fix: commit).",
+   technique="offline history checker over call/return + peer frame logs (ownership, exactly-once, order) under the race detector with delay injection"),
+ "C07": dict(level=F,
+   text="Complete product of 7 not-selected situations x 8 data-send entry points x 2 roles on real connections (error class, exactly one counted drop, nothing on the wire, control traffic unaffected, inbound data answered Reject(4) with echoed ids and not delivered); a racing variant with the peer toggling Deselect/Select and the write-lock seam forcing the write-boundary window, decided by conservation; and every 1-cut segmentation of select + pipelined data in both roles. Race build." + HELD,
+   note="The enumerated axes are complete; timing inside each case is sampled (vhook delays). 'Connecting' is modelled as refused port (active) / no peer (passive).",
+   technique="enumerated situation x API product with wire/peer/metric observers; conservation monitor under racing select/deselect; exhaustive cut-point segmentation"),
+ "C08": dict(level=E,
+   text="480 (quick) / 20k (thorough) peer frame sequences (length 1..12 over every SType 0..255, PType, body, arbitrary ids/status bytes; active and passive, validation on/off, host/equipment, coalesced or per-frame writes, supervisor-step delays, second TCP connections) each played against a fresh real connection; the exact FIFO outbound frame list fenced by a Linktest barrier, State() and handler deliveries are compared with an independent E37 responder state machine. Race build." + HELD,
+   note="Trusts the responder table in c08Model (from the property text / E37). Two scheduling-dependent answers are accepted either way and documented (duplicate Select.rsp racing transaction close; S9F1 gated at write time).",
+   technique="reference-model monitor: independent E37 responder FSM vs barrier-fenced outbound frame log of a real connection"),
+ "C09": dict(level=F,
+   text="24 (quick) / 480 (thorough) multi-generation histories: each generation ended by one of the 7 drop kinds (peer FIN, RST, stall+write timeout, Close+reopen, linktest failure, T7, T8 - all kinds in every shard) while 8 senders keep sending sync/async/W-bit messages with unique tokens; every frame read by generation G's peer must belong to a call that was open while G existed, replies must carry the tag of the generation that read the primary, waiters must be released (never T3=30 s), and the previous generation's open system bytes replayed by the next peer must not complete anything. Race build." + HELD,
+   note="hsmsss only (SECS-I generations are exercised by C17/C18 workloads, not by this oracle). The drop instant relative to each send is sampled, not enumerated.",
+   technique="generation-tagged token monitor over per-generation peer logs under the race detector with delay injection"),
+ "C10": dict(level=E,
+   text="144 (quick) / 4000 (thorough) lifecycle programs: 2..5 goroutines of Open/Close/send/UpdateConfig operations concurrent with a hostile peer script (serve, connect-only, drop, reset, stall, refuse, connect inside Close through gated Accept / delayed dial), then Close twice and leak meters (goroutine dump filtered to library frames, Close() on every harness-owned socket/listener, /proc fd count, no dial/listen after Close), double-Open guard, reopen + round trip. Race build; a hang is caught by the shard watchdog with a goroutine dump." + HELD,
+   note="hsmsss transport; handlers return immediately. Close latency bound is close timeout + 5 s. ErrCloseTimeout as a return value is counted, not judged.",
+   technique="randomized lifecycle programs with leak meters (goroutines, sockets, fds), latency bound and race detector"),
+ "C20": dict(level=E,
+   text="40 (quick) / 1200 (thorough) histories of 1..32 concurrent senders whose calls end in every outcome (reply, reject, T3, cancel, refused, disconnect, write error), with a drop, a forced streak of refused dials and a reconnect; an accountant derives every counter from the per-call outcomes and the peer's own frame counts and compares at quiescent points; a sampler watches both gauges (never negative; Reconnecting()>0 inside the refusal streak). Race build." + HELD,
+   note="hsmsss transport. Exact equality with the peer's counts is required only at fault-free quiescent points; across a drop Send is bounded (a successful write may die in the socket buffer).",
+   technique="conservation monitor: independent accountant vs library counters at quiescent points + gauge sampler"),
 }
 
 hooks_commits = []
+fix_commits = []
 try:
     out = subprocess.run(['git','-C','/repo','log','--format=%H %s'],capture_output=True,text=True).stdout
     for l in out.splitlines():
         h, s = l.split(' ',1)
-        if s.startswith('verif:') :
+        if s.startswith('verif:'):
             hooks_commits.append(h)
+        if s.startswith('fix:'):
+            fix_commits.append(h)
 except Exception:
     pass
+
+na_reason = {
+}
+DEFAULT_NA = "check not integrated yet in this session (runtime-monitoring design in DESIGN.md §5); not claimed until its monitor exists and has been validated"
 
 m = {
  "version": 1,
@@ -40,14 +78,14 @@ m = {
  },
  "engines": [
   {"name": "vcheck", "path": "/verif/harness", "serves_properties": sorted(claimed),
-   "kind_free_text": "Go harness: parent runner + per-shard child processes (plain and -race builds, tag verif); reference models in harness/ref; monitors in harness/mon; per-property drivers in harness/checks"}
+   "kind_free_text": "Go harness: parent runner + per-shard child processes (plain and -race builds, tag verif); reference models in harness/ref; scripted byte-level peer and tracking sockets in harness/peer; monitors in harness/mon; per-property drivers in harness/checks"}
  ],
  "checks": [],
  "not_applicable": [],
- "notes": "Every check: ./check <id> [--tier quick|thorough]; exit 0 held / 1 VIOLATION / 2 INCONCLUSIVE / 3 harness bug. VERIF_SEED and VERIF_TIER are honoured. See DESIGN.md.",
+ "notes": "Every check: ./check <id> [--tier quick|thorough]; exit 0 held / 1 VIOLATION / 2 INCONCLUSIVE / 3 harness bug. VERIF_SEED and VERIF_TIER are honoured. Genuine defects repaired in /repo (fix: commits): " + ", ".join(h[:7] for h in fix_commits) + ". See DESIGN.md and known_findings.json.",
 }
 for i in ids:
-    if i in claimed:
+    if i in claimed and os.path.exists(f'/verif/harness/checks/{i.lower()}.go'):
         c = claimed[i]
         m["checks"].append({
           "property_id": i,
@@ -56,11 +94,11 @@ for i in ids:
           "evidence_file": f"/verif/evidence/{i}.json",
           "replay_cmd_template": f"./check {i} --replay {{path}}",
           "engine": "vcheck",
-          "level_claimed": {"category": c["level"], "text": c["text"], "design_ref": c["design"]},
+          "level_claimed": {"category": c["level"], "text": c["text"], "design_ref": f"DESIGN.md §5 {i}"},
           "level_note": c["note"],
           "technique": c["technique"],
         })
     else:
-        m["not_applicable"].append({"property_id": i, "reason": "check not built yet in this session (runtime-monitoring design in DESIGN.md §5); not claimed until its monitor exists and has been validated"})
+        m["not_applicable"].append({"property_id": i, "reason": na_reason.get(i, DEFAULT_NA)})
 json.dump(m, open('/verif/MANIFEST.json','w'), indent=1)
-print("claimed:", sorted(claimed), "not_applicable:", len(m["not_applicable"]))
+print("claimed:", [c["property_id"] for c in m["checks"]], "not_applicable:", len(m["not_applicable"]))
